@@ -44,7 +44,10 @@ impl RunOut {
             hit_limit: w.hit_limit,
             panic: None,
             choices: w.ch.values(),
-            log: std::mem::take(&mut w.log),
+            log: match w.trace_text.take() {
+                Some(t) => t,
+                None => std::mem::take(&mut w.log),
+            },
             trace: std::mem::take(&mut w.trace),
             stats: BTreeMap::new(),
             config: String::new(),
@@ -60,6 +63,10 @@ pub struct RunCtx {
     pub keep_trace_text: bool,
     /// family-specific variant switch (e.g. C20 group member)
     pub variant: u32,
+    /// shift every instant handed to the protocol core by this much (C20 time translation)
+    pub base_shift_ns: u64,
+    /// insert extra handle_timeout / poll_transmit / poll calls that must be harmless (C20)
+    pub spurious: bool,
 }
 
 pub struct Family {
